@@ -265,7 +265,9 @@ func c19Judge(c *core.Ctx, k c19case, res *core.ShardResult) (vs []core.Violatio
 	gitIgnoreOld := ""
 	if k.GitIgnore {
 		// (no trailing newline, leading blank lines, several trailing newlines, trailing escaped blank)
-		gitIgnoreOld = []string{"node_modules/\n*.log", "\n\n# mine\nfoo\n\n\n", "a\\ \n", "  lead\nx \n", "\n"}[len(k.Files)%5]
+		gitIgnoreOld = []string{"node_modules/\n*.log", "\n\n# mine\nfoo\n\n\n", "a\\ \n", "  lead\nx \n", "\n",
+			// .spok mentioned in other roles: part of another name, negated, in a comment, as a file pattern
+			"docs/.spokes/\nlegacy.spok.bak\n", "# .spok/ is spok's cache\n!.spok/keep\n", "*.spok\n.spokfile\n"}[(len(k.Files)+len(k.Spokfile))%8]
 		_ = os.WriteFile(filepath.Join(cwd, ".gitignore"), []byte(gitIgnoreOld), 0o644)
 	}
 	switch k.InitHere {
